@@ -2390,6 +2390,12 @@ class DiskObjectStore(PackBasedObjectStore):
                 # renames this same file, which a live mapping blocks on
                 # Windows. PackData.close() leaves f open for it to finish.
                 with PackData(path, file=f, object_format=self.object_format) as pd:
+                    # Verify the trailing checksum before indexing, as
+                    # add_thin_pack (PackStreamCopier.verify) and
+                    # MemoryObjectStore.add_pack do. _complete_pack rewrites
+                    # the trailer, so a pack that was damaged or cut short in
+                    # transit would otherwise be accepted silently.
+                    pd.check()
                     indexer = PackIndexer.for_pack_data(
                         pd,
                         resolve_ext_ref=self.get_raw,
